@@ -150,6 +150,74 @@ def body_tuple_keys(env, kind='int', n=2, m=3):
              % (kind, lv, rv, direction))
 
 
+BASE = 2 ** 53
+
+
+def body_mixed_single(env, shape='1-n', n=3):
+    """single-key shapes on concrete key columns of *different* integer / float storage types, with integers beyond 2**53
+    (where a conversion of the whole column to float64 would merge neighbouring keys); the selection is symbolic"""
+    from glue.core import Data
+    combos = [(np.int64, np.float64), (np.int64, np.uint64), (np.int64, np.int64), (np.int32, np.int64)]
+    ta, tb = combos[env.choice('dtypes', len(combos))]
+    big = ta == np.int64
+    LV = [BASE, BASE + 1, 17, 2] if big else [40, 41, 17, 2]
+    lv = [LV[env.choice('l%d' % i, len(LV))] for i in range(n)]
+    r1 = [LV[1], 17, LV[1] + 299]                        # first key column of the other dataset (type ta)
+    r2 = [17, 3, 2] if tb != np.float64 else [17.0, 3.5, 2.0]
+    A = Data(label='A', k1=np.array(r1, dtype=ta), k2=np.array(r2, dtype=tb))
+    B = Data(label='B', j1=np.array(lv, dtype=ta))
+    if shape == '1-n':
+        B.join_on_key(A, 'j1', ('k1', 'k2'))
+    else:
+        A.join_on_key(B, ('k1', 'k2'), 'j1')
+    direction = env.choice('direction', 2)
+    if direction == 0:
+        target, source = B, A
+    else:
+        target, source = A, B
+    st, sel = forked_selection(env, source, 'sel')
+    if direction == 0:
+        want = [any(bool(sel[j]) and (lv[i] == r1[j] or lv[i] == r2[j]) for j in range(3)) for i in range(n)]
+    else:
+        want = [any(bool(sel[i]) and (lv[i] == r1[j] or lv[i] == r2[j]) for i in range(n)) for j in range(3)]
+    got = target.get_mask(st)
+    env.same(got, np.array(want, dtype=bool), 'mixed key types (%s, %s/%s): row selected <=> its key equals a key of a selected row; '
+             'left=%s right=%s,%s dir=%d' % (shape, ta.__name__, tb.__name__, lv, r1, r2, direction))
+
+
+WIDE_RIGHT = [(i // 4, i % 4) for i in range(16)]
+
+
+def body_tuple_wide(env, nleft=4):
+    """n-n shape with many selected distinct key pairs on the other side and repeated key pairs on this side (array-size
+    dependent code paths of the membership test)"""
+    from glue.core import Data
+    cand = [(9, 9), (0, 0), (3, 3), (7, 7)]              # not present / present and selectable / present and selected / not present
+    lv = [cand[env.choice('l%d' % i, len(cand))] for i in range(nleft)]
+    A = Data(label='A', k1=np.array([p[0] for p in WIDE_RIGHT], dtype=np.int64), k2=np.array([p[1] for p in WIDE_RIGHT], dtype=np.int64))
+    B = Data(label='B', j1=np.array([p[0] for p in lv], dtype=np.int64), j2=np.array([p[1] for p in lv], dtype=np.int64))
+    B.join_on_key(A, ('j1', 'j2'), ('k1', 'k2'))
+    from glue.core.subset import SubsetState
+    from glue.core.exceptions import IncompatibleAttribute
+    free = [0, 1, 5, 10]                                  # rows of A whose membership the solver decides; the others are selected
+    bits = {j: env.bool('sel[%d]' % j) for j in free}
+
+    class Sel(SubsetState):
+        def to_mask(self, data, view=None):
+            if data is not A:
+                raise IncompatibleAttribute()
+            m = np.array([bool(bits[j]) if j in bits else True for j in range(len(WIDE_RIGHT))], dtype=bool)
+            return m if view is None else m[view]
+
+        def copy(self):
+            return self
+    selected = [bool(bits[j]) if j in bits else True for j in range(len(WIDE_RIGHT))]
+    view = [None, slice(1, None)][env.choice('view', 2)]
+    got = B.get_mask(Sel(), view=view)
+    want = np.array([any(selected[j] and WIDE_RIGHT[j] == lv[i] for j in range(len(WIDE_RIGHT))) for i in range(nleft)], dtype=bool)
+    env.same(got, want if view is None else want[view], 'tuple keys, 16 rows on the other side: left=%s selected=%s view=%r' % (lv, selected, view))
+
+
 def body_chain(env, length=3, cyclic=False):
     """chains / cycles of joins: the selection travels through intermediate datasets; an unanswerable selection is reported
     incompatible (and leaves no trace: a following answerable request still works)"""
@@ -234,6 +302,12 @@ def harnesses(tier):
                                       note='same storage dtype on both sides'),
                           assumptions=['key columns of the tuple shape have the same dtype on both sides (mixed dtypes/widths are the recorded '
                                        'finding C11/tuple-keys-bytewise)']))
+    for shape in ('1-n', 'n-1'):
+        hs.append(Harness('mixed key types %s' % shape, body_mixed_single, params=dict(shape=shape, n=3), validate=25, weight=3, wall_s=1800,
+                          max_paths=500000, bounds=dict(shape=shape, rows=3, dtypes=['int64/float64', 'int64/uint64', 'int64/int64', 'int32/int64'],
+                                                        values='incl. integers beyond 2**53')))
+    hs.append(Harness('tuple keys wide', body_tuple_wide, params=dict(nleft=4), validate=25, weight=3, wall_s=1800, max_paths=500000,
+                      bounds=dict(shape='n-n', left_rows=4, right_rows=16, selected='12 fixed + 4 solver-chosen')))
     for length, cyc in ((2, False), (3, False), (3, True)) + (((4, False), (4, True)) if tier == 'thorough' else ()):
         hs.append(Harness('chain length=%d cyclic=%s' % (length, cyc), body_chain, params=dict(length=length, cyclic=cyc), validate=25,
                           weight=4, wall_s=1800, bounds=dict(datasets=length, cyclic=cyc, rows=2)))
